@@ -73,6 +73,21 @@ Theorem C03_satisfiable : revision_valid ex_revision = true /\ wf_extra (effecti
 Proof. exact ex_revision_ok. Qed.
 Print Assumptions C03_satisfiable.
 
+(* a verbatim raw manifest (objects too corrupt for the data model) takes precedence for the id,
+   whatever its bytes - the empty byte string included; the commit object of the fields
+   (rev_manifest) never reads it *)
+Theorem C03_raw_manifest_precedence : forall (H : bytes -> bytes) r m,
+  v_raw_manifest r = Some m -> rev_compute_hash H r = H m.
+Proof. exact rev_raw_manifest_precedence. Qed.
+Print Assumptions C03_raw_manifest_precedence.
+
+(* extra headers given BOTH as the attribute and inside legacy metadata: the attribute decides the
+   manifest, and construction leaves the object - metadata key included - as it is *)
+Theorem C03_attribute_wins : forall r, v_extra_headers r <> [] ->
+  effective_extra r = v_extra_headers r /\ post_init r = r.
+Proof. exact extra_attribute_wins. Qed.
+Print Assumptions C03_attribute_wins.
+
 (* ---- cross-model consistency C03 x C16 (proofs/CrossModelDates.v).  The author
    and committer lines are Rel.format_author = fullname followed by C16's
    Time.author_date_part, whose date text C16_format_date_exact characterises.
